@@ -89,11 +89,6 @@ CLAIMS = {
             "length equals the governing length; reachable panics are failures.",
             "Bounds: sources <= 3 elements; LazyDeltaVec and LazyAggVec are NOT covered yet.",
             "formula-equality harnesses over mock sources", "5 C15"),
-    "C16": ("model_checking",
-            "Only clause (c): the change-record parser on an arbitrary byte string (subsumes truncation at every offset and arbitrary length fields) returns an "
-            "error or a record that fits inside the input; cursor arithmetic cannot overflow.",
-            "Retention (save_change_file), rollback_before and the failed-rollback-leaves-vector-unchanged clause are NOT decided.",
-            "arbitrary-bytes parser harness", "5 C16"),
     "C17": ("model_checking",
             "Every on-disk decoder is symbolically executed on arbitrary bytes (RegionMetadata slot: all 4096 bytes symbolic) and every encoder/decoder pair on "
             "arbitrary valid values; the solver shows round-trip identity and absence of panics/overflow/out-of-bounds (CBMC pointer checks on).",
@@ -117,6 +112,7 @@ NOT_APPLICABLE = {
     "C07": "compressed write()/Pages harnesses not built (page capacity hook + codec stub needed); codec internals (Pco/LZ4/Zstd numeric loops, C FFI) are out of reach of Kani in any case",
     "C09": "needs the pause-point interleaving harnesses for raw/compressed write(); not built; memory-ordering strength of SharedLen cannot be checked by Kani at all",
     "C14": "import_with / forced_import_with call create_region_if_needed and remove_region (allocator + name index with 7-byte names): contract mode cuts the allocator; not built",
+    "C16": "only the cursor arithmetic of the change-record parser is decided (harness c17_change_cursor_bounds, listed under C17); the whole-record parser harness exhausts memory (symbolic-length collect), retention (save_change_file: numeric file names via string formatting) and rollback_before are not encodable within reach - nothing claimed",
     "C18": "kernel advisory-lock semantics (cross-process exclusion, release on last handle drop) are not encodable; the open-ordering half (try_lock before set_len) was designed but its harness is not built",
 }
 
